@@ -361,6 +361,10 @@ func (eng *Engine) translate(unit, mode string, fn *ssa.Function, fc *FuncContra
 			vc.mapHeapVar(m)
 		}
 	}
+	vc.opaque = map[string]bool{}
+	for _, o := range fc.Opaque {
+		vc.opaque[o] = true
+	}
 	fr := eng.newFrame(vc, fn, fc)
 	entry := vc.rootState()
 	// lemmas in use
@@ -375,6 +379,20 @@ func (eng *Engine) translate(unit, mode string, fn *ssa.Function, fc *FuncContra
 			vc.trust("axiom %s: %s", ln, strings.TrimSpace(l.C.Src))
 		} else {
 			vc.note("uses lemma %s (proved separately)", ln)
+		}
+	}
+	vc.lemmaTerms = map[string]string{}
+	for _, ln := range fc.Lemmas {
+		l := eng.cs.Lemmas[ln]
+		if l == nil {
+			panic(bindErr("unknown lemma " + ln))
+		}
+		env := fr.newEnv(entry, entry)
+		vc.lemmaTerms[ln] = fr.evalClause(l.C, env, "lemma "+ln)
+		if l.Axiom {
+			vc.trust("axiom %s: %s", ln, strings.TrimSpace(l.C.Src))
+		} else {
+			vc.note("lemma %s (proved separately) is available to individual clauses", ln)
 		}
 	}
 	// declare parameters
@@ -441,7 +459,7 @@ func (eng *Engine) translate(unit, mode string, fn *ssa.Function, fc *FuncContra
 				label = fmt.Sprint(k)
 			}
 			vc.addObl(&Obligation{Name: fmt.Sprintf("%s#post.%s", unit, label), Kind: "post", Props: fc.Props,
-				Guard: exitGuard, Goal: t, Src: c.Src, File: c.File, Line: c.Line, Pos: eng.pos(fn.Pos())})
+				Guard: exitGuard, Goal: t, Src: c.Src, File: c.File, Line: c.Line, Pos: eng.pos(fn.Pos()), Extra: vc.clauseLemmas(c)})
 		}
 		fr.frameObligations(retRec{guard: exitGuard, st: exit, results: results}, 0, entry)
 	}
@@ -563,6 +581,15 @@ func (fr *Frame) frameFormula(hv string, allow map[string][]frameAllowed, entry 
 		}
 	}
 	body := eq(fmt.Sprintf("(select %s a)", h1), fmt.Sprintf("(select %s a)", h0))
+	if strings.HasPrefix(hv, "HA_") {
+		// backing arrays: pointwise instead of extensional array equality (friendlier to instantiation)
+		idx := "Int"
+		if vc.isBV() {
+			idx = "(_ BitVec 64)"
+		}
+		return fmt.Sprintf("(forall ((a Int) (k %s)) (! (=> %s (= (select (select %s a) k) (select (select %s a) k))) :pattern ((select (select %s a) k))))", idx,
+			and(append([]string{"(< 0 a)", fmt.Sprintf("(< a %s)", next0)}, excl...)...), h1, h0, h1)
+	}
 	if len(fieldItems) > 0 {
 		var t types.Type
 		for tt, name := range vc.heapTypes {
